@@ -117,6 +117,7 @@ class ClassTable:
         self.fields = {}         # class -> {field: Ty}
         self.late = set()        # (class, field) not necessarily assigned by __init__
         self.ghost = set()       # (class, field)
+        self.field_inv = {}      # (class, field) -> (text, fn(z3 term) -> z3 bool): invariant of an immutable field
         for sub in ("partition", "algos", "synthetic_obj"):
             d = os.path.join(self.repo, "PyXAB", sub)
             for fn in sorted(os.listdir(d)):
